@@ -117,7 +117,19 @@ def _load_repo_ignores(project_root: Path) -> list[str]:
     config_file = project_root / ".thailint.yaml"
     if config_file.exists():
         return _parse_config_file(config_file)
-    return []
+    return _load_ignores_from_fallback_config(project_root)
+
+
+def _load_ignores_from_fallback_config(project_root: Path) -> list[str]:
+    """Load the ignore list from .thailint.json or pyproject.toml [tool.thailint]."""
+    from src.core.config_parser import ConfigParseError
+    from src.linter_config.loader import load_config
+
+    try:
+        return _extract_ignore_patterns(load_config(project_root / ".thailint.json"))
+    except (ConfigParseError, OSError, UnicodeDecodeError) as e:
+        logger.warning("Failed to load ignore patterns from %s: %s", project_root, e)
+        return []
 
 
 def _parse_thailintignore_file(ignore_file: Path) -> list[str]:
